@@ -19,7 +19,9 @@ SHUTTLE = os.path.join(BUILD, "target-shuttle", "release", "sim-shuttle")
 MIRI_TARGET_DIR = os.path.join(BUILD, "target-miri")
 REPLAYS = os.path.join(VERIF, "replays")
 KNOWN = os.path.join(VERIF, "known_findings.json")
-TARGETS = {"x86_64": "x86_64-unknown-linux-gnu", "i686": "i686-unknown-linux-gnu", "aarch64": "aarch64-unknown-linux-gnu"}
+TARGETS = {"x86_64": "x86_64-unknown-linux-gnu", "i686": "i686-unknown-linux-gnu", "aarch64": "aarch64-unknown-linux-gnu",
+           # x86_64 with the AES-NI arm live under the interpreter: detection granted, _mm_aeskeygenassist_si128 modelled
+           "x86_64-ni": "x86_64-unknown-linux-gnu"}
 
 # families cheap enough for the interpreter (no big const tables, no 521-encryption key setup)
 CHEAP = ["aes128", "aes192", "aes256", "des", "tdes_ede3", "tdes_eee2", "sm4", "xtea", "speck64_128", "speck128_256",
@@ -51,6 +53,9 @@ def miri_cmd(target, miriflags, args):
         # reference to ONE byte): Stacked Borrows rejects that, Tree Borrows accepts it. Model choice, not a finding
         # of a claimed property (DESIGN.md 3.4 / 10): aarch64 runs use Tree Borrows; x86_64 and i686 keep Stacked Borrows.
         e["MIRIFLAGS"] = (miriflags + " -Zmiri-tree-borrows").strip()
+    if target == "x86_64-ni":
+        e["RUSTFLAGS"] = "-C target-feature=+aes"
+        tdir = os.path.join(BUILD, "target-miri-ni")
     cmd = ["cargo", "+nightly", "miri", "run", "--offline", "--quiet", "--bin", "sim-miri", "--target", TARGETS[target],
            "--target-dir", tdir, "--"] + args
     return cmd, e
@@ -60,7 +65,7 @@ def run_miri(target, miriflags, args, timeout):
     cmd, e = miri_cmd(target, miriflags, args)
     t0 = time.time()
     try:
-        p = subprocess.run(cmd, cwd=(WS_A64 if target == "aarch64" else WS), env=e, capture_output=True, text=True, timeout=timeout)
+        p = subprocess.run(cmd, cwd={"aarch64": WS_A64, "x86_64-ni": os.path.join(BUILD, "ws-ni")}.get(target, WS), env=e, capture_output=True, text=True, timeout=timeout)
         return p.returncode, p.stdout, p.stderr, time.time() - t0
     except subprocess.TimeoutExpired as ex:
         return -9, (ex.stdout or b"").decode() if isinstance(ex.stdout, bytes) else (ex.stdout or ""), "TIMEOUT", time.time() - t0
@@ -121,7 +126,7 @@ def write_replay(name, obj):
 # Miri exec mode: explicit operation lists, digest compared with native
 
 
-def export_lists(prop, seed, count, max_ops, max_variants, tag, only=None, variants=None):
+def export_lists(prop, seed, count, max_ops, max_variants, tag, only=None, variants=None, pars=None):
     out = os.path.join(BUILD, "tmp", f"exp-{prop}-{tag}")
     if os.path.isdir(out):
         for f in os.listdir(out):
@@ -129,6 +134,8 @@ def export_lists(prop, seed, count, max_ops, max_variants, tag, only=None, varia
     fams = only or CHEAP
     cmd = [NATIVE, "export", "--prop", prop, "--seed", str(seed), "--count", str(count), "--families", ",".join(fams),
            "--variants", ",".join(variants or MIRI_VARIANTS), "--max-ops", str(max_ops), "--max-variants", str(max_variants), "--out", out]
+    if pars:
+        cmd += ["--pars", ",".join(str(x) for x in pars)]
     p = subprocess.run(cmd, capture_output=True, text=True)
     if p.returncode != 0:
         raise RuntimeError("export failed: " + p.stderr[-400:])
@@ -143,10 +150,12 @@ def exec_one(target, path, grant=False, timeout=1500):
     rc, out, err, wall = run_miri(target, "", args, timeout)
     res = {"file": path, "target": target, "grant": grant, "rc": rc, "wall": wall, "ops": len(j["ops"]), "native": j["meta"]["native_h_portable"],
            "native_violation": j["meta"].get("native_violation")}
-    last = "none"
-    for m in re.finditer(r"^@op (\S+) (\S+)", out, re.M):
+    last, last_route = "none", 0
+    for m in re.finditer(r"^@op (\S+) (\S+)(?: route_len=(\d+))?", out, re.M):
         last = m.group(2)
+        last_route = int(m.group(3) or 0)
     res["last_op"] = last
+    res["last_route_len"] = last_route
     m = re.search(r"^RESULT \S+ ok h_portable=([0-9a-f]+) steps=(\d+) calls=(\d+)", out, re.M)
     if m:
         res.update(status="ok", digest=m.group(1), steps=int(m.group(2)), calls=int(m.group(3)))
@@ -165,16 +174,19 @@ def exec_one(target, path, grant=False, timeout=1500):
 def miri_exec_engine(prop, tier, seed):
     quick = tier == "quick"
     nlists = 8 if quick else 64
-    targets = ["x86_64", "i686", "aarch64"]
+    targets = ["x86_64", "i686", "aarch64", "x86_64-ni"]
     files = export_lists(prop, seed, nlists, 10 if quick else 16, 3, "exec")
     # aarch64: AES lists with detection granted (ARMv8-CE path, five intrinsics modelled) and denied (fixslice64 through
     # the aarch64 autodetect wrapper); Kuznyechik NEON in lists of its own (table start-up cost)
+    # (batch lengths are drawn around the parallel widths of the aarch64 backends: ARMv8-CE 21/19/17, NEON 8)
     a64_aes = export_lists(prop, seed + 1, 3 if quick else 24, 8 if quick else 14, 3, "a64aes", only=["aes128", "aes192", "aes256"],
-                           variants=["aes_auto", "aes_auto_z", "aes_autoc_z", "aes_soft", "aes_alt_z"])
-    a64_kuz = export_lists(prop, seed + 2, 1 if quick else 8, 6 if quick else 10, 2, "a64kuz", only=["kuznyechik"], variants=["kuz", "kuz_z", "kuz_compact_z"])
+                           variants=["aes_auto", "aes_auto_z", "aes_autoc_z", "aes_soft", "aes_alt_z"], pars=[21, 19, 17])
+    a64_kuz = export_lists(prop, seed + 2, 2 if quick else 12, 6 if quick else 10, 2, "a64kuz", only=["kuznyechik"], variants=["kuz", "kuz_z", "kuz_compact_z"], pars=[8])
     jobs = [(t, f, False) for t in ("x86_64", "i686") for f in files]
     jobs += [("aarch64", f, True) for f in a64_aes] + [("aarch64", f, False) for f in a64_aes[: (1 if quick else 8)]]
     jobs += [("aarch64", f, True) for f in a64_kuz]
+    # the AES-NI arm itself under the interpreter (x86_64, detection granted): same AES lists
+    jobs += [("x86_64-ni", f, True) for f in a64_aes]
     t0 = time.time()
     with ThreadPoolExecutor(max_workers=16) as ex:
         results = list(ex.map(lambda tf: exec_one(tf[0], tf[1], grant=tf[2]), jobs))
@@ -183,7 +195,7 @@ def miri_exec_engine(prop, tier, seed):
            "ops_executed": sum(r.get("steps", 0) for r in results), "cipher_calls": sum(r.get("calls", 0) for r in results),
            "digest_matches_native": sum(1 for r in results if r.get("status") == "ok" and r.get("digest") == r["native"]),
            "wall_s": round(time.time() - t0, 1),
-           "what_is_real": "all of /repo that the simulated target compiles (i686: fixslice32 unmodified; x86_64: autodetect soft arm, Kuznyechik compact_soft; aarch64: aes/src/armv8* and kuznyechik/src/neon/* with exactly five intrinsics redirected to sim/models/verif_neon_model.rs, everything else unmodified). stub: CPUID/hwcap (the simulator decides: 'no AES' as upstream does under Miri, or granted on aarch64), five aarch64 intrinsics",
+           "what_is_real": "all of /repo that the simulated target compiles (i686: fixslice32 unmodified; x86_64: autodetect soft arm, Kuznyechik compact_soft; x86_64-ni: the AES-NI arm with detection granted and _mm_aeskeygenassist_si128 redirected to the model; aarch64: aes/src/armv8* and kuznyechik/src/neon/* with exactly five intrinsics redirected to sim/models/verif_neon_model.rs, everything else unmodified). stub: CPUID/hwcap (the simulator decides: 'no AES' as upstream does under Miri, or granted on aarch64), five aarch64 intrinsics",
            "aarch64_detection_granted_runs": sum(1 for r in results if r["target"] == "aarch64" and r.get("grant")),
            "per_target_ok": {t: sum(1 for r in results if r["target"] == t and r.get("status") == "ok") for t in targets}}
     viols, notes, herr = [], [], []
@@ -205,6 +217,13 @@ def miri_exec_engine(prop, tier, seed):
             (viols if d["property"] == prop else notes).append((d["property"], sig, rp, d["detail"]))
         elif st in ("ub", "race", "deadlock"):
             p = attribute_ub(r.get("stderr_tail", ""), r.get("last_op"))
+            concerns = {p}
+            if r.get("last_op") in ("call", "repeat") and r.get("last_route_len", 0) > 1:
+                # undefined behaviour inside a call on an instance that came out of a clone / conversion: the
+                # instance itself is suspect, so the finding concerns C12 as much as the call discipline
+                concerns.add("C12")
+            if prop in concerns:
+                p = prop
             sig = f"{p}/miri-{st}/{r['target']}"
             rp = write_replay(f"{base}-{r['target']}.miri.json", {"format": "block-ciphers-sim-replay/1", "property": p, "engine": "miri",
                               "mode": "exec", "target": r["target"], "grant": r.get("grant", False), "miriflags": "", "list": json.load(open(r["file"])),
@@ -274,6 +293,11 @@ def miri_threads_engine(prop, tier, seed):
                           rate=r.choice([0.003, 0.01, 0.03, 0.1]), variants=variants))
     for p in plans:
         p["target"], p["grant"] = "x86_64", False
+    # the AES-NI arm under preemptive threads (x86_64, detection granted, one intrinsic modelled)
+    for j in range(2 if quick else 12):
+        plans.append(dict(wl_seed=seed * 1000 + 700 + j, nthreads=r.choice([3, 4]), nops=r.choice([2, 3]), mode="firstuse" if j % 2 == 0 else "shared",
+                          fams=[["aes128", "aes192", "aes256"][j % 3], ["aes256", "aes128", "aes192"][j % 3]], miri_seeds=(700 + j * per, 700 + j * per + per),
+                          rate=r.choice([0.003, 0.01, 0.03]), variants="aes_auto,aes_auto_z,aes_autoc_z", target="x86_64-ni", grant=True))
     if not quick:
         # thorough: the ARMv8-CE arm (detection granted, five intrinsics modelled) and the aarch64 soft arm under threads
         for j in range(8):
@@ -439,11 +463,11 @@ def replay(path):
 
 def warm():
     rc = 0
-    for t in ("x86_64", "i686", "aarch64"):
+    for t in ("x86_64", "i686", "aarch64", "x86_64-ni"):
         e = env_offline()
-        if t == "aarch64":
+        if t in ("aarch64", "x86_64-ni"):
             e["RUSTFLAGS"] = "-C target-feature=+aes"
-        p = subprocess.run(["cargo", "+nightly", "miri", "setup", "--offline", "--target", TARGETS[t]], cwd=(WS_A64 if t == "aarch64" else WS), env=e, capture_output=True, text=True)
+        p = subprocess.run(["cargo", "+nightly", "miri", "setup", "--offline", "--target", TARGETS[t]], cwd={"aarch64": WS_A64, "x86_64-ni": os.path.join(BUILD, "ws-ni")}.get(t, WS), env=e, capture_output=True, text=True)
         if p.returncode != 0:
             print("HARNESS-ERROR: miri setup " + t + ": " + p.stderr[-500:], file=sys.stderr)
             rc = 2
